@@ -66,10 +66,16 @@ def gen_rule(rng, block, opcode, subblocks):
         if k == 0:
             pat.append({"p": "ws"})
         else:
-            sep = rng.choice([",", ",", ",", "+", "-"]) if k == 1 or rng.random() < 0.7 else ","
-            pat.append({"p": "lit", "lc": sep, "c0": sep, "nch": 1})
-            if rng.random() < 0.85:
+            sep = rng.choice([",", ",", ",", "+", "-", "with"]) if k == 1 or rng.random() < 0.7 else ","
+            if sep.isalpha():
+                # a word between two operands (its first letter is the look-ahead of the operand before it)
                 pat.append({"p": "ws"})
+                pat.append({"p": "lit", "lc": sep, "c0": sep[0], "nch": len(sep)})
+                pat.append({"p": "ws"})
+            else:
+                pat.append({"p": "lit", "lc": sep, "c0": sep, "nch": 1})
+                if rng.random() < 0.85:
+                    pat.append({"p": "ws"})
         c = rng.random()
         name = pnames[k]
         wrap = None
@@ -121,6 +127,10 @@ def gen_rule(rng, block, opcode, subblocks):
             operands.append(("typed", ty, n))
         if wrap and wrap != "#":
             pat.append({"p": "lit", "lc": wrap[1], "c0": wrap[1], "nch": 1})
+        elif not wrap and operands[-1][0] in ("typed", "untyped") and rng.random() < 0.12:
+            # a unit suffix glued to the operand (`10ms`, `3h`): found by its first letter inside the text
+            suf = rng.choice(["ms", "h"])
+            pat.append({"p": "lit", "lc": suf, "c0": suf[0], "nch": len(suf)})
     pad = (-total) % 8
     if pad:
         prod.append(numlit("0b" + "0" * pad))
@@ -523,7 +533,7 @@ def rerender(rng, P):
     if rng.random() < 0.6:
         for it in Q["items"]:
             if it["k"] in ("label", "const") and it["lvl"] == 0:
-                ren[it["name"]] = it["name"] + rng.choice(["_x", "Z", "_renamed"])
+                ren[it["name"]] = it["name"] + rng.choice(["_x", "Z", "_q2"])
     for it in Q["items"]:
         if it["k"] in ("label", "const") and it["lvl"] == 0 and it["name"] in ren:
             it["name"] = ren[it["name"]]
@@ -655,6 +665,14 @@ def gen_cascade_isa(rng):
     rules.append({"block": "cpu", "sub": False, "pat": [_lit("nop")], "prod": numlit("0x00")})
     rules.append({"block": "cpu", "sub": False, "pat": [_lit("ldi"), {"p": "ws"}, _par("v")],
                   "prod": concat([numlit("0x80"), {"k": "sshort", "e": var("v"), "n": numlit("8")}])})
+    # a value selected by a condition on the operand: both branches are literals, the condition is not
+    if rng.random() < 0.4:
+        rules.append({"block": "cpu", "sub": False, "pat": [_lit("sel"), {"p": "ws"}, _par("a")],
+                      "prod": concat([numlit("0x70"), {"k": "tern", "c": rng.choice([
+                          _cmp("ge", var("a"), numlit(rng.choice(["0x8", "0x10", "0x100"]))),
+                          _cmp("eq", _cmp("and", var("a"), numlit("1")), numlit("1")),
+                          _cmp("eq", _cmp("and", var("a"), numlit("3")), numlit("2"))]),
+                                                       "t": numlit("0x11"), "f": numlit("0x22")}])})
     # an operand that is a sub-rule with an expression parameter of its own
     if rng.random() < 0.6:
         rules.append({"block": "tgt", "sub": True, "pat": [_par("a", "u", 16)], "prod": var("a")})
@@ -689,7 +707,7 @@ def gen_cascade_program(rng, isa=None):
         for nm in ("a", "v", "r"):
             if nm not in labels and rng.random() < 0.65:
                 items.append({"k": "const", "lvl": 0, "name": nm, "e": {"k": "num", "text": list(str(rng.choice([0, 5, 200])))}})
-    casc = [m for m in isa["mnemonics"] if m in ("ld", "jmp", "br", "adds", "jr")]
+    casc = [m for m in isa["mnemonics"] if m in ("ld", "jmp", "br", "adds", "jr", "sel")]
     for i in range(rng.randrange(3, 16)):
         c = rng.random()
         if pending and c < 0.25:
@@ -734,7 +752,7 @@ def gen_cascade_program(rng, isa=None):
             items.append({"k": "align", "n": rng.choice([16, 32, 64])})
         else:
             items.append({"k": "addr", "n": rng.choice([0x8, 0x10, 0xfe, 0x100, 0x120])})
-    if collide and pending and rng.random() < 0.7:
+    if pending and rng.random() < (0.7 if collide else 0.25):
         # far forward labels: every reference to them grows after the first pass, so the
         # labels in between move, and whatever was frozen on the first pass is stale
         items.append({"k": "res", "n": rng.choice([0x70, 0x100])})
@@ -743,8 +761,14 @@ def gen_cascade_program(rng, isa=None):
             at = max(i for i, it in enumerate(items) if it["k"] == "label") + 1
             for _ in range(rng.randrange(1, 3)):
                 lab = rng.choice(back)
-                toks = ([tok("id", "ldi", True)] + name_tokens(lab, True)) if rng.random() < 0.5 else \
-                    ([tok("id", "mvi", True), num_tok(rng, 7, True), tok("op", ",", False)] + name_tokens(lab, True))
+                extra = [m for m in ("sel", "call") if m in isa["mnemonics"]]
+                c3 = rng.random()
+                if extra and c3 < 0.4:
+                    toks = [tok("id", rng.choice(extra), True)] + name_tokens(lab, True)
+                elif c3 < 0.7:
+                    toks = [tok("id", "ldi", True)] + name_tokens(lab, True)
+                else:
+                    toks = [tok("id", "mvi", True), num_tok(rng, 7, True), tok("op", ",", False)] + name_tokens(lab, True)
                 items.insert(rng.randrange(at, len(items)), {"k": "instr", "toks": toks})
     for lab in pending:
         items.append({"k": "label", "lvl": 0, "name": lab})
